@@ -21,6 +21,9 @@ class Hit(Exception):
         self.detail = detail
 
 
+PROP = None     # property whose check is running: an oracle of another property that fires does not end the search
+
+
 def _run(rnd, n, one):
     tried = 0
     seen = set()
@@ -29,11 +32,58 @@ def _run(rnd, n, one):
         try:
             one(rnd, script)
         except Hit as h:
-            return dict(tried=tried + 1, distinct=len(seen) + 1,
-                        hit=dict(inputs={'scenario': script}, run=dict(failed=[h.what], detail=str(h.detail)[:500], outcome='violation')))
+            # `what` may name several properties: "C01+C07:tag" (the same observation contradicts both statements)
+            props, tag = h.what.split(':', 1)
+            whats = [q + ':' + tag for q in props.split('+')]
+            mine = [w for w in whats if PROP is None or w.startswith(PROP + ':')]
+            if mine:
+                return dict(tried=tried + 1, distinct=len(seen) + 1,
+                            hit=dict(inputs={'scenario': script}, run=dict(failed=mine, detail=str(h.detail)[:500], outcome='violation')))
         tried += 1
         seen.add(repr(script))
     return dict(tried=tried, distinct=len(seen), hit=None)
+
+
+class Enumerator:
+    """stands in for random.Random in a scenario: every `choice` is a recorded choice point, and `_run_exhaustive`
+    re-runs the scenario over all choice sequences (depth-first, odometer order) - a bounded exhaustive search"""
+
+    def __init__(self, prefix):
+        self.prefix = prefix
+        self.trail = []          # (chosen index, arity)
+
+    def choice(self, seq):
+        seq = list(seq)
+        k = len(self.trail)
+        i = self.prefix[k] if k < len(self.prefix) else 0
+        self.trail.append((i, len(seq)))
+        return seq[i]
+
+
+def _run_exhaustive(one, limit):
+    tried = 0
+    prefix = []
+    exhausted = False
+    while tried < limit:
+        e = Enumerator(prefix)
+        script = []
+        try:
+            one(e, script)
+        except Hit as h:
+            props, tag = h.what.split(':', 1)
+            mine = [q + ':' + tag for q in props.split('+') if PROP is None or q == PROP]
+            if mine:
+                return dict(tried=tried + 1, distinct=tried + 1, exhaustive=False,
+                            hit=dict(inputs={'scenario': script}, run=dict(failed=mine, detail=str(h.detail)[:500], outcome='violation')))
+        tried += 1
+        t = e.trail
+        while t and t[-1][0] + 1 >= t[-1][1]:
+            t.pop()
+        if not t:
+            exhausted = True
+            break
+        prefix = [i for i, _ in t[:-1]] + [t[-1][0] + 1]
+    return dict(tried=tried, distinct=tried, hit=None, exhaustive=exhausted)
 
 
 # ---------------------------------------------------------------------------------------------- consumer (C02 C03 C13)
@@ -252,7 +302,7 @@ def scenario_broker_aware(rnd, n):
         expected_failed = [pl for pl in payloads if client_leader(by_broker, pl) in fails]
         if expected_failed:
             if not isinstance(res, Failure) or not res.check(FailedPayloadsError):
-                raise Hit('C07:failed-payloads-not-reported' if acks else 'C01:acks0-send-reported-success-although-broker-failed',
+                raise Hit('C07:failed-payloads-not-reported' if acks else 'C01+C07:acks0-send-reported-success-although-broker-failed',
                           repr(res)[:200])
             got_failed = [p for p, f in res.value.failed_payloads]
             if sorted(map(repr, got_failed)) != sorted(map(repr, expected_failed)):
@@ -299,7 +349,7 @@ def scenario_client_close(rnd, n):
     def one(r, script):
         clock = task.Clock()
         client = KafkaClient(hosts='h:1', reactor=clock, enable_protocol_version_discovery=False)
-        nb = r.choice([2, 3, 4])
+        nb = r.choice(NB)
         fakes = {i: FakeBroker(i) for i in range(1, nb + 1)}
         for i, f in fakes.items():
             client._brokers[i] = BrokerMetadata(i, 'h', 1)
@@ -307,9 +357,8 @@ def scenario_client_close(rnd, n):
         closing = []
         alive = set(fakes)
         result = []
-        steps = r.choice([2, 3, 4, 5])
         closed = False
-        for s in range(steps):
+        for s in range(DEPTH):
             opts = []
             if len(alive) > 1 and not closed:
                 opts.append('refresh')
@@ -346,7 +395,10 @@ def scenario_client_close(rnd, n):
                     f.closed_d.callback(None)
             if len(result) != 1:
                 raise Hit('C20:close-deferred-did-not-fire-exactly-once', len(result))
-    return _run(rnd, n, one)
+    # exhaustive over every event sequence (a run has at most 2*brokers events): 2..4 brokers on every change, 2..5 in the
+    # thorough tier
+    NB, DEPTH = ([2, 3, 4] if n <= 400 else [2, 3, 4, 5]), 12
+    return _run_exhaustive(one, 10 ** 7)
 
 
 def scenario_metadata_merge(rnd, n):
